@@ -24,10 +24,28 @@ func (r *replayExec) Exec(line string) (string, string) {
 // and one op list per goroutine.
 func genConcCase(r *rand.Rand, cfg Cfg, g int) (prefix []string, per [][]string) {
 	uni := Universe(r, cfg, 8+r.Intn(60))
+	// values are a function of the key most of the time, so that deletes find what they expect
+	val := func(k uint64) uint64 {
+		if r.Intn(6) == 0 {
+			return uint64(r.Intn(3))
+		}
+		return k % 3
+	}
+	// deletes favour keys of high layers: removing them merges two (cached, shared) children
+	delKey := func() uint64 {
+		k := pick(r, uni)
+		for j := 0; j < 3; j++ {
+			if q := pick(r, uni); cfg.RefLayer(q) > cfg.RefLayer(k) {
+				k = q
+			}
+		}
+		return k
+	}
 	prefix = []string{"new 0"}
 	nroot := 0
 	for i := 0; i < 10+r.Intn(50); i++ {
-		prefix = append(prefix, opIns(0, pick(r, uni), uint64(r.Intn(3))))
+		k := pick(r, uni)
+		prefix = append(prefix, opIns(0, k, val(k)))
 		if r.Intn(12) == 0 {
 			prefix = append(prefix, fmt.Sprintf("root 0 %d", nroot))
 			nroot++
@@ -55,10 +73,12 @@ func genConcCase(r *rand.Rand, cfg Cfg, g int) (prefix []string, per [][]string)
 		for i := 0; i < 15+r.Intn(40); i++ {
 			s := pick(r, slots)
 			switch x := r.Intn(100); {
-			case x < 40:
-				ops = append(ops, opIns(s, pick(r, uni), uint64(r.Intn(3))))
+			case x < 35:
+				k := pick(r, uni)
+				ops = append(ops, opIns(s, k, val(k)))
 			case x < 55:
-				ops = append(ops, opDel(s, pick(r, uni), uint64(r.Intn(3))))
+				k := delKey()
+				ops = append(ops, opDel(s, k, k%3))
 			case x < 65:
 				ops = append(ops, fmt.Sprintf("get %d %d", s, pick(r, uni)))
 			case x < 75:
